@@ -242,40 +242,39 @@ theorem exp_terminates (x : Flt) (hF : x.sem.WF) (hc : x.Canonical) (fuel : Nat)
   cases hx : x.cat
   · simp [Flt.isZero, Flt.isInf, hx]
   · simp [Flt.isZero, Flt.isInf, Flt.isNormal, hx]
-  · have hG : ((x.sem.growLog 10).increaseExponent 10).WF :=
-      Sem.increaseExponent_WF (Sem.growLog_WF hF 10) 10
-    have hG2 : (((((x.sem.growLog 10).increaseExponent 10)).growLog 10).increaseExponent 10).WF :=
-      Sem.increaseExponent_WF (Sem.growLog_WF hG 10) 10
+  · have hG : x.expSem.WF := Sem.increaseExponent_WF (Sem.growLog_WF hF _) 10
     simp only [Flt.isZero, Flt.isInf, Flt.isNormal, hx, show (Cat.normal == Cat.zero) = false from rfl,
       show (Cat.normal == Cat.inf) = false from rfl, beq_self_eq_true, Bool.not_true,
       Bool.false_eq_true, if_false]
-    obtain ⟨a, b, c, d, e⟩ := C06.widen_lossless_normal x ((x.sem.growLog 10).increaseExponent 10)
-      x.sem.rm (by simp [Sem.increaseExponent, Sem.growLog]) (by simp [Sem.increaseExponent, Sem.growLog]; omega)
+    obtain ⟨a, b, c, d, e⟩ := C06.widen_lossless_normal x x.expSem
+      x.sem.rm (by simp [Flt.expSem, Sem.increaseExponent, Sem.growLog])
+      (by simp [Flt.expSem, Sem.increaseExponent, Sem.growLog]; omega)
       hF hG hx hc
-    have hexp := widen_exp_le x ((x.sem.growLog 10).increaseExponent 10) x.sem.rm
-      (by simp [Sem.increaseExponent, Sem.growLog]) (by simp [Sem.increaseExponent, Sem.growLog]; omega)
+    have hexp := widen_exp_le x x.expSem x.sem.rm
+      (by simp [Flt.expSem, Sem.increaseExponent, Sem.growLog])
+      (by simp [Flt.expSem, Sem.increaseExponent, Sem.growLog]; omega)
       hF hG hx hc
     cases hs : x.sign
     · simp only [Bool.false_eq_true, if_false, Option.isSome_map]
       exact expRangeReduce_isSome _ (by rw [a]; exact hG) c b (by rw [d, hs])
         fuel (le_trans (Nat.add_le_add_right (redBound_mono hexp) 1) hfuel)
     · simp only [if_true, Option.isSome_map]
-      set y := (x.cast ((x.sem.growLog 10).increaseExponent 10)).neg with hy
-      have hys : y.sem = (x.sem.growLog 10).increaseExponent 10 := a
+      set y := (x.cast x.expSem).neg with hy
+      have hys : y.sem = x.expSem := a
       have hyc : y.Canonical := c
       have hyn : y.cat = .normal := b
       have hysg : y.sign = false := by rw [hy]; show (!(x.castWithRm _ _).sign) = false; rw [d, hs]; rfl
       have hye : y.exp ≤ x.exp := hexp
-      obtain ⟨a', b', c', d', e'⟩ := C06.widen_lossless_normal y
-        ((((x.sem.growLog 10).increaseExponent 10).growLog 10).increaseExponent 10) y.sem.rm
-        (by rw [hys]; simp [Sem.increaseExponent, Sem.growLog])
-        (by rw [hys]; simp [Sem.increaseExponent, Sem.growLog]; omega)
-        (by rw [hys]; exact hG) hG2 hyn hyc
-      have hexp' := widen_exp_le y
-        ((((x.sem.growLog 10).increaseExponent 10).growLog 10).increaseExponent 10) y.sem.rm
-        (by rw [hys]; simp [Sem.increaseExponent, Sem.growLog])
-        (by rw [hys]; simp [Sem.increaseExponent, Sem.growLog]; omega)
-        (by rw [hys]; exact hG) hG2 hyn hyc
+      have hyF : y.sem.WF := by rw [hys]; exact hG
+      have hG2 : y.expSem.WF := Sem.increaseExponent_WF (Sem.growLog_WF hyF _) 10
+      obtain ⟨a', b', c', d', e'⟩ := C06.widen_lossless_normal y y.expSem y.sem.rm
+        (by simp [Flt.expSem, Sem.increaseExponent, Sem.growLog])
+        (by simp [Flt.expSem, Sem.increaseExponent, Sem.growLog]; omega)
+        hyF hG2 hyn hyc
+      have hexp' := widen_exp_le y y.expSem y.sem.rm
+        (by simp [Flt.expSem, Sem.increaseExponent, Sem.growLog])
+        (by simp [Flt.expSem, Sem.increaseExponent, Sem.growLog]; omega)
+        hyF hG2 hyn hyc
       exact expRangeReduce_isSome _ (by rw [a']; exact hG2) c' b'
         (by rw [d', hysg]) fuel
         (le_trans (Nat.add_le_add_right (redBound_mono (le_trans hexp' hye)) 1) hfuel)
